@@ -65,6 +65,12 @@ namespace c16
     typedef Geometry::ConformalMesh<Shape::Hypercube<2>, 2, Q> MeshType;
     typedef Trafo::Standard::Mapping<MeshType> TrafoType;
     Index level = c.idx(); std::string sp = c.str(); std::string rule = c.str();
+    {
+      // warm-up request of the same template instantiations (discarded): other rule
+      Cur cw = c; std::ostringstream sink;
+      if(sp == "L1") trace_run<Space::Lagrange1::Element<TrafoType>>(cw, sink, level, "newton-cotes-closed:2");
+      else if(sp == "L2") trace_run<Space::Lagrange2::Element<TrafoType>>(cw, sink, level, "newton-cotes-closed:2");
+    }
     if(sp == "L1") trace_run<Space::Lagrange1::Element<TrafoType>>(c, o, level, rule);
     else if(sp == "L2") trace_run<Space::Lagrange2::Element<TrafoType>>(c, o, level, rule);
     else o << "BAD-OP";
